@@ -235,7 +235,7 @@ func parse[D []byte | string](d D, op Payload) (Decimal, error) {
 
 func parseNumber[D []byte | string](d D, neg, sepallowed bool) (Decimal, error) {
 	var sig64 uint64
-	var nfrac int16
+	var nfrac int
 	var trunc int8
 	caneof := false
 	cansep := false
@@ -295,7 +295,7 @@ func parseNumber[D []byte | string](d D, neg, sepallowed bool) (Decimal, error) 
 	}
 
 	sig := uint128{sig64, 0}
-	var exp int16
+	var exp int
 	maxexp := false
 
 	for ; i < l; i++ {
@@ -308,12 +308,15 @@ func parseNumber[D []byte | string](d D, neg, sepallowed bool) (Decimal, error) 
 			sawsep = false
 
 			if sawexp {
-				if exp > exponentBias/10+1 {
+				// the digits before the exponent can move the result by far
+				// more than the exponent range, so only clamp exponents that
+				// no literal held in memory could compensate
+				if exp > 1<<40 {
 					maxexp = true
+				} else {
+					exp *= 10
+					exp += int(c - '0')
 				}
-
-				exp *= 10
-				exp += int16(c - '0')
 			} else {
 				if sig[1] <= 0x18ff_ffff_ffff_ffff {
 					if sig[1] <= 0x027f_ffff_ffff_ffff && i < l-1 {
@@ -434,13 +437,13 @@ func parseNumber[D []byte | string](d D, neg, sepallowed bool) (Decimal, error) 
 		return zero(neg), nil
 	}
 
-	sig, exp = DefaultRoundingMode.reduce128(neg, sig, exp+exponentBias, trunc)
+	sig, exp16 := DefaultRoundingMode.reduce128(neg, sig, int16(exp+exponentBias), trunc)
 
-	if exp > maxBiasedExponent {
+	if exp16 > maxBiasedExponent {
 		return inf(neg), parseNumberRangeError{}
 	}
 
-	return compose(neg, sig, exp), nil
+	return compose(neg, sig, exp16), nil
 }
 
 type parseNumberRangeError struct{}
